@@ -185,7 +185,8 @@ def gen_equiv(seed: int, profile: str):
         if keys is None:
             return _fallback(g, cur, profile)
         ar = S(id=T(), op="arrange", src=t, by=keys)
-        n1, o1, n2, o2 = r.choice([0, 1, 2, 3, 5, 8]), r.choice([0, 0, 1, 2, 4]), r.choice([0, 1, 2, 3, 5]), r.choice([0, 0, 1, 2, 3])
+        n1, o1, n2 = r.choice([0, 1, 2, 3, 5, 8]), r.choice([0, 0, 1, 2, 4]), r.choice([0, 1, 2, 3, 5])
+        o2 = r.choice([0, 0, 1, 2, 3, n1 + 1, n1 + 2])
         s1 = S(id=T(), op="slice_head", src=ar, n=n1, offset=o1)
         prev = S(id=T(), op="slice_head", src=s1, n=n2, offset=o2)
         n, o = min(n2, max(n1 - o2, 0)), o1 + o2
